@@ -25,14 +25,30 @@ def build_model(world, mtype, spec):
     raise ValueError(mtype)
 
 
+def clone(model, via):
+    """An equal model object: a deep copy, or a pickle round trip where the model can be pickled."""
+    import copy
+    import pickle
+    if via == "pickle":
+        try:
+            return pickle.loads(pickle.dumps(model))
+        except Exception:
+            return copy.deepcopy(model)
+    return copy.deepcopy(model)
+
+
 def get_model(world, m):
     mid = m.get("id")
     if mid is not None and mid in world.objs:
-        return world.objs[mid], True
-    model = build_model(world, m["type"], m["spec"])
-    if mid is not None:
-        world.objs[mid] = model
-    return model, False
+        model, old = world.objs[mid], True
+    else:
+        model, old = build_model(world, m["type"], m["spec"]), False
+        if mid is not None:
+            world.objs[mid] = model
+    if m.get("via"):
+        world.probes["model.used_through_a_" + m["via"]] += 1
+        return clone(model, m["via"]), old
+    return model, old
 
 
 def lganm_interventions(lst):
